@@ -115,7 +115,7 @@ def design_memory(spec):
     for p in cfg["wports"] + cfg["rports"]:
         d = p["domain"]
         if d != "comb" and d not in doms:
-            doms[d] = ClockDomain(d)
+            doms[d] = ClockDomain(d, clk_edge=(cfg.get("edge") or {}).get(d, "pos"), async_reset=(cfg.get("reset") or {}).get(d) == "async")
             m.domains += doms[d]
     shape = Shape(*cfg["shape"])
     mem = Memory(shape=shape, depth=cfg["depth"], init=cfg["init"])
